@@ -77,6 +77,7 @@ type st struct {
 	storeAtLoss  []string
 	sawNew       bool
 	evname       string
+	discarded    map[string]bool // tags published before the last clean connect: must never be delivered afterwards
 }
 
 func (s *st) on(prop string) bool { return s.pr.Prop == prop }
@@ -171,6 +172,9 @@ func (s *st) drain() string {
 			}
 		case *packet.Publish:
 			tag := string(p.Message.Payload)
+			if s.discarded[tag] && s.on("C08") {
+				s.x.Failf("clean-discards", "delivered-after-clean-connect", "message %s was published before a clean-session connect of the subscriber and is delivered after it (stored state was not discarded)", tag)
+			}
 			s.received[tag]++
 			if !p.Dup {
 				s.nondup[tag]++
@@ -335,6 +339,14 @@ func history(x *explore.X, pr params) {
 		s.sawNew = false
 		s.resumed = !clean && s.haveSession
 		if clean {
+			if s.discarded == nil {
+				s.discarded = map[string]bool{}
+			}
+			for tag := range s.tagQOS {
+				if s.received[tag] == 0 {
+					s.discarded[tag] = true
+				}
+			}
 			s.haveSession = false
 			s.subscribed = false
 			s.pending = nil
